@@ -147,8 +147,20 @@ func verify(d *doc, g *refGrid, t *bo.TableBox, rp reporter) outcome {
 	for _, c := range cells {
 		neg(fmt.Sprintf("border-box width of cell %d", c.ref.k), c.w)
 		neg(fmt.Sprintf("border-box height of cell %d", c.ref.k), c.h)
-		neg(fmt.Sprintf("content width of cell %d", c.ref.k), c.cw)
-		neg(fmt.Sprintf("content height of cell %d", c.ref.k), c.ch)
+		// the content box is a clause of its own: a column narrower than a cell's padding and
+		// border is a different defect from a negative column
+		for _, v := range []struct {
+			what string
+			v    float64
+			box  float64
+		}{{"width", c.cw, c.w}, {"height", c.ch, c.h}} {
+			if v.box < -eps {
+				continue // the border box itself is negative: reported above
+			}
+			if v.v < -eps || math.IsNaN(v.v) {
+				rp.fail("nonnegative-content", fmt.Sprintf("content %s of cell %d = %g (border box %g x %g)", v.what, c.ref.k, v.v, c.w, c.h))
+			}
+		}
 	}
 
 	// ---- slots, edges, spans --------------------------------------------------------------------
